@@ -1,7 +1,8 @@
-(* C07 - faithful model of unescape_text (/repo/src/pest_bridge.rs:2573-2643) on lists of code points.
+(* C07 - faithful model of try_unescape_text (/repo/src/pest_bridge.rs, as of commit 51d94c0) on lists of code points.
    The Rust function walks `text.chars()`; `chars.by_ref().take(4)` / `take_while(|c| *c != '}')` consume from the
-   same iterator, which is what the explicit patterns / the UBrace state below do.  It never fails: an escape that
-   does not produce a char is dropped.  No proofs in this file. *)
+   same iterator, which is what the explicit patterns / the UBrace state below do.  A \u escape that pushes no
+   character (lone or reversed surrogate, not a scalar value, unparsable hex) makes the function return None.
+   No proofs in this file. *)
 From Cddl Require Import Base.Bytes Lit.IntLit.
 Open Scope N_scope.
 
@@ -9,8 +10,14 @@ Open Scope N_scope.
 Definition char_from_u32 (cp : N) : option N :=
   if (cp <=? 1114111) && negb ((55296 <=? cp) && (cp <=? 57343)) then Some cp else None.
 
-Definition push_opt (o : option N) (rest : list N) : list N :=
-  match o with Some c => c :: rest | None => rest end.
+(* result.push(c) when the escape produced a character; when it produced none the enclosing \u arm ends with
+   `if result.len() == len_before { return None; }` (since 51d94c0) *)
+Definition push_or_fail (o : option N) (rest : option (list N)) : option (list N) :=
+  match o, rest with
+  | Some c, Some l => Some (c :: l)
+  | _, _ => None
+  end.
+Definition push (c : N) (rest : option (list N)) : option (list N) := push_or_fail (Some c) rest.
 
 (* if let Ok(cp) = u32::from_str_radix(&hex, 16) { if let Some(ch) = char::from_u32(cp) { result.push(ch) } } *)
 Definition braced_char (hex : list N) : option N :=
@@ -19,44 +26,38 @@ Definition braced_char (hex : list N) : option N :=
   | None => None
   end.
 
-(* chars.by_ref().take(4).collect(): the next (up to) four characters and what remains *)
-Definition take4 (s : list N) : list N * list N :=
-  match s with
-  | a :: b :: c :: d :: r => ([a; b; c; d], r)
-  | _ => (s, [])
-  end.
-
 Inductive ustate := UNorm | UBrace (acc : list N).     (* acc: the hex characters collected so far, reversed *)
 
-Fixpoint unescape_st (st : ustate) (s : list N) : list N :=
+(* try_unescape_text; None = the function returned None (the call sites turn it into a parse error) *)
+Fixpoint unescape_st (st : ustate) (s : list N) : option (list N) :=
   match st with
   | UBrace acc =>
     match s with
-    | [] => push_opt (braced_char (rev acc)) []                       (* take_while ran to the end of the text *)
-    | c :: r => if c =? 125 then push_opt (braced_char (rev acc)) (unescape_st UNorm r)   (* '}' is consumed *)
+    | [] => push_or_fail (braced_char (rev acc)) (Some [])            (* take_while ran to the end of the text *)
+    | c :: r => if c =? 125 then push_or_fail (braced_char (rev acc)) (unescape_st UNorm r)   (* '}' is consumed *)
                 else unescape_st (UBrace (c :: acc)) r
     end
   | UNorm =>
     match s with
-    | [] => []
+    | [] => Some []
     | ch :: r =>
-      if negb (ch =? 92) then ch :: unescape_st UNorm r
+      if negb (ch =? 92) then push ch (unescape_st UNorm r)
       else
         match r with
-        | [] => []                                                    (* trailing backslash: chars.next() = None *)
+        | [] => Some []                                               (* trailing backslash: chars.next() = None *)
         | e :: r1 =>
-          if e =? 110 then 10 :: unescape_st UNorm r1                (* n *)
-          else if e =? 114 then 13 :: unescape_st UNorm r1           (* r *)
-          else if e =? 116 then 9 :: unescape_st UNorm r1            (* t *)
-          else if e =? 92 then 92 :: unescape_st UNorm r1            (* \\ *)
-          else if e =? 34 then 34 :: unescape_st UNorm r1            (* backslash quote *)
-          else if e =? 39 then 39 :: unescape_st UNorm r1            (* \' *)
-          else if e =? 47 then 47 :: unescape_st UNorm r1            (* \/ *)
-          else if e =? 98 then 8 :: unescape_st UNorm r1             (* b *)
-          else if e =? 102 then 12 :: unescape_st UNorm r1           (* f *)
+          if e =? 110 then push 10 (unescape_st UNorm r1)            (* n *)
+          else if e =? 114 then push 13 (unescape_st UNorm r1)       (* r *)
+          else if e =? 116 then push 9 (unescape_st UNorm r1)        (* t *)
+          else if e =? 92 then push 92 (unescape_st UNorm r1)        (* \\ *)
+          else if e =? 34 then push 34 (unescape_st UNorm r1)        (* backslash quote *)
+          else if e =? 39 then push 39 (unescape_st UNorm r1)        (* \' *)
+          else if e =? 47 then push 47 (unescape_st UNorm r1)        (* \/ *)
+          else if e =? 98 then push 8 (unescape_st UNorm r1)         (* b *)
+          else if e =? 102 then push 12 (unescape_st UNorm r1)       (* f *)
           else if e =? 117 then                                       (* u *)
             match r1 with
-            | [] => []                                                (* hex is empty -> Err -> nothing; end *)
+            | [] => None                                              (* hex is empty -> Err -> nothing pushed *)
             | b0 :: r2 =>
               if b0 =? 123 then unescape_st (UBrace []) r2            (* \u{ : RFC 9682 form *)
               else
@@ -64,7 +65,7 @@ Fixpoint unescape_st (st : ustate) (s : list N) : list N :=
                 match r1 with
                 | h1 :: h2 :: h3 :: h4 :: r5 =>
                   match u32_from_str_radix 16 [h1; h2; h3; h4] with
-                  | None => unescape_st UNorm r5
+                  | None => None
                   | Some cp =>
                     if (55296 <=? cp) && (cp <=? 56319) then
                       (* high surrogate: look for \uLLLL *)
@@ -74,42 +75,43 @@ Fixpoint unescape_st (st : ustate) (s : list N) : list N :=
                           match r7 with
                           | l1 :: l2 :: l3 :: l4 :: r11 =>
                             match u32_from_str_radix 16 [l1; l2; l3; l4] with
-                            | None => unescape_st UNorm r11
+                            | None => None
                             | Some low =>
                               if (56320 <=? low) && (low <=? 57343) then
-                                push_opt (char_from_u32 (65536 + (cp - 55296) * 1024 + (low - 56320)))
-                                         (unescape_st UNorm r11)
-                              else unescape_st UNorm r11
+                                push_or_fail (char_from_u32 (65536 + (cp - 55296) * 1024 + (low - 56320)))
+                                             (unescape_st UNorm r11)
+                              else None
                             end
                           | short =>                                  (* fewer than 4 characters left: all consumed *)
                             match u32_from_str_radix 16 short with
-                            | None => []
+                            | None => None
                             | Some low =>
                               if (56320 <=? low) && (low <=? 57343) then
-                                push_opt (char_from_u32 (65536 + (cp - 55296) * 1024 + (low - 56320))) []
-                              else []
+                                push_or_fail (char_from_u32 (65536 + (cp - 55296) * 1024 + (low - 56320))) (Some [])
+                              else None
                             end
                           end
-                        else unescape_st UNorm r5                     (* lone high surrogate: nothing pushed *)
-                      | _ => unescape_st UNorm r5
+                        else None                                     (* lone high surrogate: nothing pushed *)
+                      | _ => None
                       end
-                    else push_opt (char_from_u32 cp) (unescape_st UNorm r5)
+                    else push_or_fail (char_from_u32 cp) (unescape_st UNorm r5)
                   end
                 | short =>                                            (* fewer than 4 characters left *)
                   match u32_from_str_radix 16 short with
-                  | None => []
+                  | None => None
                   | Some cp =>
-                    if (55296 <=? cp) && (cp <=? 56319) then [] else push_opt (char_from_u32 cp) []
+                    if (55296 <=? cp) && (cp <=? 56319) then None else push_or_fail (char_from_u32 cp) (Some [])
                   end
                 end
             end
-          else 92 :: e :: unescape_st UNorm r1                        (* _ => push '\\', push next_ch *)
+          else push 92 (push e (unescape_st UNorm r1))                (* _ => push backslash, push next_ch *)
         end
     end
   end.
 
-Definition unescape_text (s : list N) : list N := unescape_st UNorm s.
+Definition try_unescape_text (s : list N) : option (list N) := unescape_st UNorm s.
 
-(* convert_value_to_type2, Rule::text_value arm: text_content = &text[1..text.len() - 1] *)
+(* convert_value_to_type2, Rule::text_value arm: text_content = &text[1..text.len() - 1];
+   try_unescape_text(text_content).ok_or_else(Err "Invalid escape sequence in text string") *)
 Definition strip_quotes (k : nat) (s : list N) : list N := rev (tl (rev (skipn k s))).
-Definition text_value_model (tok : list N) : list N := unescape_text (strip_quotes 1 tok).
+Definition text_value_model (tok : list N) : option (list N) := try_unescape_text (strip_quotes 1 tok).
